@@ -665,12 +665,15 @@ def u_random(seed, n=14, nauthors=2, param_bias=True):
             if kind in (1, 40000) and rnd.random() < 0.3:
                 tags.append(["d", rnd.choice(NASTY_D)])              # a regular kind carrying a d tag
             shared = rnd.choice(NASTY_VALS)
-            for _ in range(rnd.randint(0, 4)):
+            for _ in range(rnd.randint(0, 4) if rnd.random() < 0.9 else rnd.randint(8, 30)):
                 name = rnd.choice(LETTERS)
                 if rnd.random() < 0.12:
                     tags.append([name] if rnd.random() < 0.5 else [])          # name-only / empty tag
                 else:
-                    tags.append([name, shared if rnd.random() < 0.4 else rnd.choice(NASTY_VALS)])
+                    tg = [name, shared if rnd.random() < 0.4 else rnd.choice(NASTY_VALS)]
+                    if rnd.random() < 0.15:
+                        tg += [rnd.choice(NASTY_VALS)] * rnd.randint(1, 2)     # further strings (relay hint, marker)
+                    tags.append(tg)
             if kind == 1059:
                 tags.append(["p", ("pk", rnd.randint(1, nauthors))])
                 if rnd.random() < 0.4:
